@@ -742,7 +742,10 @@ impl Value {
                 }
                 Value::resolve(comprehension.result.deref(), &ctx)
             }
-            Expr::Struct(_) => todo!("Support structs!"),
+            Expr::Struct(s) => Err(ExecutionError::function_error(
+                &s.type_name,
+                "message construction is not supported",
+            )),
             Expr::Unspecified => panic!("Can't evaluate Unspecified Expr"),
         }
     }
